@@ -62,6 +62,11 @@ type Req struct {
 	Conn *Conn
 	*sarama.VerifRequest
 	Seq int
+	// group coordinator bookkeeping: side effects of a request's arrival are applied once
+	prepared       bool
+	ticksAtArrival int
+	reject         bool
+	memberID       string
 }
 
 type Conn struct {
@@ -114,6 +119,8 @@ type Cluster struct {
 	// AnswerRank is the default priority class of answer actors.
 	AnswerRank int
 	// MetaVersionCap lowers the metadata response version (0 = use the request's).
+	GroupFaults       []string
+	gseq              int
 	Groups            map[string]*Group
 	CoordFaults       []string
 	OffsetFetchFaults []string
@@ -295,9 +302,6 @@ func (cl *Cluster) actors() []gx.Actor {
 		}
 		_, isMeta := r.Body.(*sarama.MetadataRequest)
 		rank := cl.AnswerRank
-		if len(vs) == 1 && strings.HasSuffix(vs[0].Name, ".poll-expires") {
-			rank = 5 // default: only when nothing else can happen
-		}
 		acts = append(acts, gx.Actor{Label: "ans:" + r.Conn.Label, Rank: rank, Variants: vs, Urgent: isMeta && cl.UrgentMetadata})
 	}
 	return acts
@@ -356,6 +360,14 @@ func (cl *Cluster) variants(r *Req) []gx.Variant {
 		return cl.coordVariants(r, b.CoordinatorKey)
 	case *sarama.ConsumerMetadataRequest:
 		return cl.coordVariants(r, b.ConsumerGroup)
+	case *sarama.JoinGroupRequest:
+		return cl.joinVariants(r, b)
+	case *sarama.SyncGroupRequest:
+		return cl.syncVariants(r, b)
+	case *sarama.HeartbeatRequest:
+		return cl.heartbeatVariants(r, b)
+	case *sarama.LeaveGroupRequest:
+		return cl.leaveVariants(r, b)
 	case *sarama.OffsetFetchRequest:
 		return cl.offsetFetchVariants(r, b)
 	case *sarama.OffsetCommitRequest:
@@ -432,4 +444,20 @@ func (cl *Cluster) ConnState() string {
 		s = append(s, c.Label+"="+st)
 	}
 	return strings.Join(s, ",")
+}
+
+// AnswerableKinds lists the kinds of the head-of-line requests that can be answered now (requests the
+// simulated broker is deliberately holding - long polls, joins waiting for the other members - are left out).
+func (cl *Cluster) AnswerableKinds() []string {
+	var out []string
+	for _, a := range cl.actors() {
+		if len(a.Variants) > 0 {
+			k := a.Variants[0].Name
+			if i := strings.IndexByte(k, '.'); i > 0 {
+				k = k[:i]
+			}
+			out = append(out, k)
+		}
+	}
+	return out
 }
